@@ -102,6 +102,28 @@ CLAIMS = {
    ref="DESIGN.md §4 C14"),
 }
 
+# rules added after the first build round: appended to the claim texts above
+ADDED = {
+ "C01": " Also: symbolic interpretation of every emitFragment template (Alternate, conditionals, loops, captures, lookarounds, atomic) with per-opcode exit depths computed from forward and backtracking clauses — all paths reach each code position with one grouping-stack depth, the node is left at its entry depth, every emitted position is reachable (R-BRACKET); every loop-closing opcode tests for an empty iteration (R-EMPTYITER).",
+ "C02": " Also: emitCapture (what the quick program may omit) is evaluated three-valued under the obligations derived from the interpreter's Capturemark clause (R-QUICKOMIT).",
+ "C03": " Also: writer/reader guard agreement on the Boyer-Moore tables (R-TABLEDOM); the landmark-chain search continues from the minimal, not the greedy, end of a landmark (R-LMMIN); -1 sentinels are not tested against 0 (R-SENTINEL); the bump-along walk steps only through Atomic and Concatenate (R-BUMPWALK); no dead copy into a table that is then replaced (R-DEADCOPY); over-long prefixes are truncated under a direction test (R-DIRTRUNC).",
+ "C04": " Also: complement-of-one-character constructions guard each half by its own end (R-COMPL); negate is switched on only for fresh or empty sets (R-NEGFRESH); loops over an alternation's branches skip none and compare every branch's answer with the first one's (R-ALTALL).",
+ "C05": " Also: the successor kinds for which canBeMadeAtomic makes a loop atomic are checked against a table with a soundness argument per kind (R-ATOMSUCC; \\B is a recorded known finding).",
+ "C08": " Also: lazily built offset tables are created at the first rune that is not one byte wide (R-LAZYTABLE); capture lengths handed to addMatch are proven non-negative path by path (R-NONNEGLEN).",
+ "C09": " Also: the number->slot map is read only for non-negative keys (R-CAPSKEY).",
+ "C10": " Also: grow-before-store comparisons exclude index == len (R-GROWCMP); loop-closing opcodes test for empty iterations (R-EMPTYITER).",
+ "C11": " Also: a pooled buffer is released exactly once (deferred put and no explicit put) (R-OWN).",
+ "C14": " Also: the clock re-reads its period every tick (R-PERIOD); makeDeadline reads clockEnd before current on the lock-free path and recomputes the deadline under the lock on every path (R-FRESHREAD); durations are not added before downscaling (R-TICKSUM).",
+ "C15": " Also: one-sided truncation of a direction-dependent text sits under a direction test (R-DIRTRUNC); capture lengths are non-negative on every path of transferCapture (R-NONNEGLEN).",
+ "C16": " Also: every exit of a function that propagates to the subtraction comes after the subtraction was handled (R-SUBFIRST); members are added only to the positive form of a class (R-FLIPADD typestate against canonicalize's negation rewrite); a flushed pending range start resets inRange (R-RANGEFLUSH); the set-table key is injective (R-KEYINJ); negate only on fresh/empty sets (R-NEGFRESH).",
+ "C17": " Also: map reads only for group numbers (R-CAPSKEY); GroupNameFromNumber/GroupByNumber receive numbers, never slots, and numbers missing from the sparse map are not slots (R-SLOT); the option stack of the pre-scan saves a word for every plain group and consumes the `)` of option-only groups (R-OPTSTACK); ignoreNextParen is consumed by the next parenthesis of any kind in the main pass as in the pre-scan (R-IGNPAREN).",
+ "C18": " Also: plain groups save options in the pre-scan and option-only groups consume their `)` (R-OPTSTACK); '+' and '-' set the on/off mode absolutely (R-OPTSIGN).",
+ "C19": " Also: no escape sequence written by escape() is one the pattern-level scanners claim before scanCharEscape (R-ESCLETTERS).",
+ "C20": " Also: adding methods never overwrite a member in place (R-ADDMONO); the decision to fold a bare character uses the fold relation, not a general category (R-FOLDSIB); exits before the subtraction is case-folded (R-SUBFIRST).",
+}
+for k, v in ADDED.items():
+    CLAIMS[k]["text"] += v
+
 NOT_APPLICABLE = {
  "C06": "Equality between two engines over all common-syntax patterns x inputs x n: truth lives in matching semantics, not in the shape of the adapter; no structural necessary-and-telling condition exists (DESIGN.md §7).",
 }
